@@ -62,9 +62,11 @@ def sort_rules(ctx: Ctx, rule: str):
         return p
 
     rets = [n for n in own_nodes(sk) if isinstance(n, ast.Return)]
-    if len(rets) != 1 or not isinstance(rets[0].value, ast.Tuple):
+    tup = rets[0].value if len(rets) == 1 else None
+    if isinstance(tup, ast.Name) and len(res(tup)) == 1:
+        tup = res(tup)[0]
+    if not isinstance(tup, ast.Tuple):
         raise AnchorMissing("sort_key does not return one tuple")
-    tup = rets[0].value
     flip = {"+": "-", "-": "+"}
     for attr, want, what in (("priority", "-", "higher priority first"), ("seqno", "+", "declaration order among equals")):
         m = mono(tup, reads(attr), res)
